@@ -138,9 +138,14 @@ static void printf_positional_and_multi() {
 			while((int)order.size() < nd) order.push_back(1 + r.below(nargs));
 			for(size_t k = order.size(); k > 1; k--) std::swap(order[k - 1], order[r.below(k)]);
 			bool wide = r.chance(1, 2);
-			for(int a = 0; a < nargs; a++) { uint64_t v = r.chance(1, 4) ? 0 : r.chance(1, 2) ? r.below(100000) : (uint64_t)-(int64_t)r.below(100000); slots.push_back(wide ? v : ((v & 0xffffffffull) | (r.next() << 32))); }
+			std::vector<bool> is_str(nargs, false); // with 8-byte slots a position may also be a string (all fetches have one size)
+			for(int a = 0; a < nargs; a++) {
+				if(wide && r.chance(1, 4)) { is_str[a] = true; std::string sv; for(size_t q = r.below(12); q; q--) sv.push_back('a' + r.below(26)); slots.push_back(str_slot(sv)); continue; }
+				uint64_t v = r.chance(1, 4) ? 0 : r.chance(1, 2) ? r.below(100000) : (uint64_t)-(int64_t)r.below(100000); slots.push_back(wide ? v : ((v & 0xffffffffull) | (r.next() << 32)));
+			}
 			for(int a : order) {
 				if(r.chance(1, 2)) fmt += r.pick(std::vector<std::string>{" ", ", ", "x=", "[", "] ", "-"});
+				if(is_str[a - 1]) { fmt += "%" + std::to_string(a) + "$" + (r.chance(1, 2) ? "-" : "") + (r.chance(1, 2) ? "" : std::to_string(1 + r.below(14))) + (r.chance(2, 3) ? "" : "." + std::to_string(r.below(8))) + "s"; continue; }
 				char conv = "diuxXo"[r.below(6)];
 				std::string fl = (conv == 'd' || conv == 'i') ? flagset(r.below(16), "-+ 0") : conv == 'u' ? flagset(r.below(4), "-0") : flagset(r.below(8), "-0#");
 				std::string w = r.chance(1, 2) ? "" : std::to_string(1 + r.below(14));
